@@ -42,6 +42,18 @@ var propertyConfigs = map[string]*propertyConfig{
 			"c0 + c1*s equals exactly one fresh draw of the declared error distribution, public-key encryption adds two distinct error draws and one secret draw, decryption computes c0 + c1*s (+ c2*s^2) and copies the metadata.",
 		Assumptions: engineBAssumptions, Trusted: stdTrusted,
 	},
+	"C05": {
+		ID: "C05", Packages: []string{"./..."}, Level: "proof",
+		Explain: "Per-call clauses of the property, for the integer evaluator (one call, not programs).  bgv.Evaluator.Add / Sub with a ciphertext operand, degrees (1,1), (1,2), (2,1), receiver distinct, equal to the first or equal to the second operand: " +
+			"at equal scales the result is the component-wise sum / difference in the ring, a component only one operand has is copied - negated when it is the subtrahend's (finding F39) - and the output has the larger degree; " +
+			"at different scales the result is r0*op0 +- r1*op1 with the two factors of matchScalesBinary (named, not interpreted), also when the receiver is the second operand (finding F32).  " +
+			"Add / Sub / Mul with an integer scalar: the output records the scale of the input whatever the receiver held (finding F34), has the degree of the input, and addition copies the untouched components.  " +
+			"Rescale: on success the receiver has the degree of the input whatever degree it had (finding F40), the input's flags, no index is out of range (obligation kind index), and an input at level 0 is refused with an error.",
+		Assumptions: append(append([]string{}, engineBAssumptions...), "scales are compared and converted by TRUSTED leaves whose outcome is NAMED by uninterpreted functions of the scale's contents (cmpval, uf_scale64, uf_msb0/1): the contracts say which branch a comparison selects and which factors are applied, not what the factors are",
+			"Ring.MulScalar, MulScalarThenAdd / ThenSub, DivRoundByLastModulusNTT, Scale.Mul / Div and the big-integer scalar products are TRUSTED abstract leaves (ring-element reading of the row-level contracts of C01 / C02)",
+			"NOT decided: anything about programs (noise budget, exactness after decoding), the value of the scale-matching factors and of the recorded scale after scale matching, multiplication / relinearisation / tensoring, the scale-invariant (BFV) style, plaintext and vector operands, the VALUE of a rescaled component (rounded division is not a ring operation)"),
+		Trusted:     stdTrusted,
+	},
 	"C14": {
 		ID: "C14", Packages: []string{"./..."}, Level: "proof",
 		Explain: "Abstract contracts on the collective public-key protocol: GenShare = e_i - s_i*crp with one fresh error draw, in NTT/Montgomery form on Q and P; AggregateShares = +; GenPublicKey = (aggregate, crp). " +
